@@ -31,7 +31,7 @@ Lemma produce_header :
     o_magic o = true.
 Proof.
   intros ngc p T K V Hv.
-  destruct p as [| | | | | | | | | |c|c|c|c|c| | | | |i|i]; try destruct c; try destruct i;
+  destruct p as [| | | | | | | | | |c|c|c|c|c| | | | |i|i|]; try destruct c; try destruct i;
     destruct T; try discriminate Hv; vm_compute; repeat split; reflexivity.
 Qed.
 
@@ -42,7 +42,7 @@ Lemma registered_is_heap :
     o_reg (m_produce (cfg_src ngc) p T K V) <> RNone -> spec_class p = AHeap.
 Proof.
   intros ngc p T K V Hv.
-  destruct p as [| | | | | | | | | |c|c|c|c|c| | | | |i|i]; try destruct c; try destruct i; try reflexivity;
+  destruct p as [| | | | | | | | | |c|c|c|c|c| | | | |i|i|]; try destruct c; try destruct i; try reflexivity;
     destruct T; try discriminate Hv; vm_compute; intro H; try reflexivity; exfalso; apply H; reflexivity.
 Qed.
 
@@ -102,7 +102,7 @@ Lemma produce_inv :
     invb (spec_class p) (kind_of (spec_type p T K V)) (m_produce (cfg_src ngc) p T K V) = true.
 Proof.
   intros ngc p T K V Hv Hh.
-  destruct p as [| | | | | | | | | |c|c|c|c|c| | | | |i|i]; try (exfalso; apply Hh; reflexivity);
+  destruct p as [| | | | | | | | | |c|c|c|c|c| | | | |i|i|]; try (exfalso; apply Hh; reflexivity);
     try destruct c; try destruct i; try (exfalso; apply Hh; reflexivity);
     first [ solve [destruct T; try discriminate Hv; vm_compute; reflexivity]
           | solve [destruct K; try discriminate Hv; vm_compute; reflexivity]
@@ -326,4 +326,18 @@ Proof.
   pose proof (round_up_ge w ks Hw) as Rk. pose proof (round_up_ge w vs Hw) as Rv.
   unfold table_khead, table_kbody, table_vhead, table_vbody, table_block, table_step in *.
   repeat split; nia.
+Qed.
+
+(* the four sites of Tree.c that place things behind the key agree, for every key size *)
+Lemma tree_sites_agree :
+  forall H w ks vs, 0 < w ->
+    tree_kbody H w + ks <= tree_site_vhead H w ks /\
+    tree_site_vhead H w ks + H = tree_site_vbody H w ks /\
+    tree_site_vbody H w ks + vs <= tree_site_block H w ks vs /\
+    tree_site_copy_end H w ks vs = tree_site_block H w ks vs.
+Proof.
+  intros H w ks vs Hw. pose proof (round_up_ge w ks Hw) as R.
+  unfold tree_kbody, tree_site_vhead, tree_site_vbody, tree_site_block, tree_site_copy_end, ks_at,
+    hdr_tree_alloc_block_kround, hdr_tree_alloc_vhead_kround, hdr_tree_val_kround, hdr_tree_rem_copy_kround.
+  repeat split; lia.
 Qed.
